@@ -302,3 +302,89 @@ def valueless_fields_not_user_defined(nested: bool, kind: int, touch: int) -> bo
     hold("fresh", is_value_defined(cfg, pre + "plain") == (touch in (1, 2)), "sibling status wrong")
     hold("fresh", not is_value_defined(cfg, pre + "v"), "touching a sibling made the valueless field user-defined")
     return True
+
+
+# --------------------------------------------------------------------------- validation is not assignment
+@obligation(prop="C12", sites=("fresh",), budget={"quick": 120, "thorough": 240},
+            encodes=["cincoconfig.core.Schema._validate", "cincoconfig.core.Schema._validate_field",
+                     "cincoconfig.support.is_value_defined"],
+            what="declared defaults that are valid but not in their field's normal form (upper-case text for a "
+                 "lower-casing field, a numeric text for an int field, text to strip; root and nested): an explicit "
+                 "validate(), a collecting validate() or a load that mentions OTHER fields only leaves every such "
+                 "field not user-defined and leaves all user-defined flags as the state machine says")
+def validation_does_not_define(op: int, nested: bool, touch_other: bool) -> bool:
+    """
+    pre: 0 <= op <= 3
+    post: _
+    """
+    from cincoconfig import LogLevelField
+    schema = Schema()
+    owner = schema.sec if nested else schema
+    owner.level = LogLevelField(default="INFO")
+    owner.mode = StringField(transform_case="lower", transform_strip=True, default="  Fast ")
+    owner.port = IntField(default=lambda: "8080")
+    owner.plain = IntField(default=3)
+    schema.other = IntField(default=0)
+    pre = "sec." if nested else ""
+    cfg = schema()
+    names = [pre + n for n in ("level", "mode", "port", "plain")]
+    hold("fresh", not any(is_value_defined(cfg, n) for n in names), "fresh fields reported user-defined")
+    if touch_other:
+        cfg.other = 5
+    if op == 0:
+        cfg.validate()
+    elif op == 1:
+        cfg.validate(collect_errors=True)
+    elif op == 2:
+        cfg.load_tree({"other": 7})
+    else:
+        cfg.load_tree({"sec": {"plain": 4}} if nested else {"plain": 4})
+    for n in names:
+        want = op == 3 and n.endswith("plain")
+        hold("fresh", is_value_defined(cfg, n) == want,
+             lambda: "after validation / a load of other fields %s is reported %suser-defined" % (n, "" if not want else "not "))
+    hold("fresh", is_value_defined(cfg, "other") == (touch_other or op == 2), "status of the other field wrong")
+    return True
+
+
+# --------------------------------------------------------------------------- reset of a dynamic section
+@obligation(prop="C12", sites=("reset",), budget={"quick": 120, "thorough": 240},
+            encodes=["cincoconfig.support.reset_value", "cincoconfig.core.Schema.__setdefault__"],
+            what="reset_value on a whole sub-configuration (plain or dynamic; declared and undeclared keys set by "
+                 "assignment or by a load, symbolic): afterwards it equals the sub-configuration of a freshly built "
+                 "configuration - declared fields at their defaults and not user-defined, undeclared keys gone - "
+                 "and no other field moved")
+def reset_whole_section(dynamic: bool, by_load: bool, set_declared: bool, set_extra: bool, x: int) -> bool:
+    """
+    pre: 0 <= x <= 9
+    post: _
+    """
+    schema = Schema()
+    schema.keep = IntField(default=1)
+    schema.plug = Schema(dynamic=dynamic)
+    schema.plug.size = IntField(default=2)
+    schema.plug.tags = ListField(IntField(), default=lambda: [1])
+    if set_extra and not dynamic:
+        skip("undeclared keys need a dynamic section")
+    cfg = schema()
+    cfg.keep = 8
+    values = {}
+    if set_declared:
+        values["size"] = x
+        values["tags"] = [x]
+    if set_extra:
+        values["extra"] = x
+    if by_load:
+        cfg.load_tree({"plug": values})
+    else:
+        for k, v in values.items():
+            cfg.plug[k] = v
+    reset_value(cfg, "plug")
+    fresh = schema()
+    hold("reset", plain(cfg.plug) == plain(fresh.plug),
+         lambda: "after resetting the section it holds %r, a fresh one %r" % (plain(cfg.plug), plain(fresh.plug)))
+    hold("reset", not is_value_defined(cfg, "plug.size") and not is_value_defined(cfg, "plug.tags")
+         and not is_value_defined(cfg, "plug"), "reset section still reports user-defined fields")
+    hold("reset", "extra" not in cfg.plug and "plug.extra" not in cfg, "an undeclared key survived the reset of its section")
+    hold("reset", cfg.keep == 8 and is_value_defined(cfg, "keep"), "another field moved")
+    return True
